@@ -38,7 +38,7 @@ VARIABLES conn,    \* [Clients -> {"new", "open", "closed"}]
           held,    \* [Clients -> set of ssids]   the connection's counters
           trie,    \* set of <<ssid, client>>
           links,   \* [Clients -> set of link records]   (name unique per client)
-          store,   \* [Brokers -> sequence of stored messages [w, p]]   (every broker has its own message store)
+          store,   \* [Brokers -> sequence of stored messages [w, p, ttl]]   (every broker has its own message store)
           out      \* observation of the last step
 svars == <<conn, user, will, held, trie, links, store>>
 allvars == <<svars, out>>
@@ -51,6 +51,7 @@ Brokers == { Home[c] : c \in Clients }
 (* the placements used by the configurations: nb = 1: one broker; 2: c2 alone on b2 (c1 and c3 share b1: two local
    holders of one filter behind one route); 3: one client per broker *)
 StdHome(nb) == [c \in Clients |-> IF nb = 1 THEN "b1" ELSE IF c = "c2" THEN "b2" ELSE IF nb = 3 /\ c = "c3" THEN "b3" ELSE "b1"]
+Retention == 2592000                         \* seconds a retained message without an explicit ttl is kept (the provider's default)
 CT == "ct"                                   \* the broker's contract
 Ssid(w)  == <<CT>> \o w
 Pres(s)  == <<"sys", "presence">> \o s       \* NewSsidForPresence
@@ -185,7 +186,7 @@ Publish(c, req, via, retain, qos, p) ==
             /\ UNCHANGED svars
        ELSE LET stored == (retain \/ r.ttl > 0) /\ Perm(r.k, "s")
                 rcv    == Direct(trie, Ssid(r.w), IF r.me0 THEN {c} ELSE {})
-            IN  /\ store' = IF stored THEN [store EXCEPT ![Home[c]] = Append(@, [w |-> r.w, p |-> p])] ELSE store
+            IN  /\ store' = IF stored THEN [store EXCEPT ![Home[c]] = Append(@, [w |-> r.w, p |-> p, ttl |-> IF r.ttl > 0 THEN r.ttl ELSE Retention])] ELSE store
                 /\ out'   = [x \in Clients |->
                                [s |-> (IF x \in rcv THEN <<PPub(r.w, p)>> ELSE <<>>) \o (IF x = c THEN ack ELSE <<>>),
                                 a |-> {}]]
@@ -253,12 +254,19 @@ End(c) ==
            rcv == IF f THEN Direct(r.trie, Ssid(wl.w), {}) ELSE {}
        IN  /\ conn'  = [conn EXCEPT ![c] = "closed"]
            /\ held'  = r.held /\ trie' = r.trie
-           /\ store' = IF f /\ wl.retain /\ Perm(wl.k, "s") THEN [store EXCEPT ![Home[c]] = Append(@, [w |-> wl.w, p |-> wl.p])] ELSE store
+           /\ store' = IF f /\ wl.retain /\ Perm(wl.k, "s") THEN [store EXCEPT ![Home[c]] = Append(@, [w |-> wl.w, p |-> wl.p, ttl |-> Retention])] ELSE store
            /\ out'   = [x \in Clients |->
                           IF x = c THEN [s |-> <<>>, a |-> {}]       \* whatever is written to the dying socket is not observable
                           ELSE [s |-> IF x \in rcv THEN <<PPub(wl.w, wl.p)>> ELSE <<>>,
                                 a |-> { n[2] : n \in { m \in r.notes : m[1] = x } }]]
            /\ UNCHANGED <<user, will, links>>
+
+(* The broker process stops and a new one starts on the same directory (no connection is open: every client has ended
+   or not connected yet).  With the disk-backed store the history survives; nothing else existed. *)
+Restart ==
+    /\ \A c \in Clients : conn[c] # "open"
+    /\ out' = Quiet
+    /\ UNCHANGED svars
 
 (* C09: a hostile or malformed input on connection c.
    closing classes (malformed packets: reserved type, oversize or 5-byte remaining length, string length beyond the
